@@ -460,7 +460,7 @@ def run_property(prop: str, tier: str, seed: int, only=None, nproc=NPROC) -> int
         wall_s=round(wall, 2),
         violations=len(final),
     )
-    if not errors:
+    if not errors and os.environ.get("VERIF_NO_EVIDENCE") != "1":
         os.makedirs(os.path.join(ROOT, "evidence"), exist_ok=True)
         with open(os.path.join(ROOT, "evidence", f"{prop}.json"), "w") as f:
             json.dump(evidence, f, indent=1, sort_keys=True, default=str)
